@@ -526,6 +526,15 @@ MODULE_WITNESSES = [
     ("ok", 4, "units real\n" + DZ % ("atomNumbers 1", "0.25"), True, "reference (units real)"),
     ("ok", 4, "UNITS Real\n" + DZ % ("atomNumbers 1", "0.25"), True, "reference (units, letter case)"),
     ("strict:module:unknown-units-accepted", 4, "units furlongs\n" + DZ % ("atomNumbers 1", "0.25"), False, "`units furlongs` is accepted"),
+    # text that is neither a keyword nor a value must be an error, wherever it is on the line
+    ("strict:module:text-after-brace-accepted", 4, (DZ % ("atomNumbers 1", "0.25")).replace("      atomNumbers 1\n    }", "      atomNumbers 1\n    } junk"), False,
+     "`} junk` after the closing brace of an atom group"),
+    ("strict:module:text-after-brace-accepted", 4, (DZ % ("atomNumbers 1", "0.25")).replace("    main {\n      atomNumbers 1\n    }", "    main { atomNumbers 1 } junk"), False,
+     "`main { atomNumbers 1 } junk` on one line"),
+    ("strict:module:text-before-brace-accepted", 4, (DZ % ("atomNumbers 1", "0.25")).replace("colvar {", "colvar foo {"), False, "`colvar foo {`"),
+    ("strict:module:second-block-ignored", 4, (DZ % ("atomNumbers 1", "0.25")).replace("    ref {", "    main {\n      atomNumbers 2\n    }\n    ref {"), False,
+     "a second `main { ... }` block in a component that reads one"),
+    ("ok", 4, (DZ % ("atomNumbers 1", "0.25")).replace("}\nharmonic {", "} harmonic {"), True, "reference (`} harmonic {` on one line)"),
     # a misspelling that is a proper PREFIX of an optional keyword of the same block (the whole word must match)
     ("strict:module:keyword-prefix-accepted", 4, "colvarsTrajFreq 5\n" + DZ % ("atomNumbers 1", "0.25"), False, "`colvarsTrajFreq 5` (prefix of colvarsTrajFrequency) at the module level"),
     ("strict:module:keyword-prefix-accepted", 4, (DZ % ("atomNumbers 1", "0.25")).replace("  width 0.5\n", "  width 0.5\n  upperBound 3.0\n"), False,
@@ -568,10 +577,13 @@ def bias_block(cv, bad=None):
 
 def rejected_config(r, name, atom):
     """a configuration that the module refuses, at a random stage/depth; uses the given names only"""
-    kind = r.choice(["global", "colvar", "component", "group", "bias", "top", "brace", "value"])
+    kind = r.choice(["global", "global-set-then-error", "colvar", "component", "group", "bias", "top", "brace", "value"])
     pad = r.randint(0, 8)
     if kind == "global":
         return kind, "colvarsTrajFrequency abc\n" + cv_block(name, atom, pad) + bias_block(name)
+    if kind == "global-set-then-error":
+        # module-level settings are made, THEN the configuration is refused
+        return kind, "colvarsTrajFrequency 9\ncolvarsRestartFrequency 11\n" + cv_block(name, atom, pad) + bias_block(name, "  forceKonstant 1.0")
     if kind == "colvar":
         return kind, cv_block(name, atom, pad, "  wdth 0.5") + bias_block(name)
     if kind == "component":
@@ -973,6 +985,61 @@ def crash_site(exe, d, scn_text, stderr, env):
     return m.group(1) if m else "unknown-site"
 
 
+# ---- the keywords that the init() of every real block kind looks up, recorded from the binary of this run
+_CVX = "colvar {\n  name x\n  distanceZ {\n    main {\n      atomNumbers 1\n    }\n    ref {\n      dummyAtom (0,0,0)\n    }\n    axis (0,0,1)\n  }\n}\n"
+_GRP = "group1 {\n  atomNumbers 1 2\n}\ngroup2 {\n  atomNumbers 3 4\n}\n"
+RECORD = [
+    ("global", "", "colvarsTrajFrequency 5\n"),
+    ("colvar", "", "name x\nwidth 0.5\ndistanceZ {\n  main {\n    atomNumbers 1\n  }\n  ref {\n    dummyAtom (0,0,0)\n  }\n}\n"),
+    ("cvc:distance", "", _GRP),
+    ("cvc:distancez", "", "main {\n  atomNumbers 1\n}\nref {\n  dummyAtom (0,0,0)\n}\naxis (0,0,1)\n"),
+    ("cvc:distancevec", "", _GRP),
+    ("group", "", "atomNumbers 1 2\n"),
+    ("bias:harmonic", _CVX, "colvars x\ncenters 0.5\nforceConstant 2.0\n"),
+    ("bias:harmonicwalls", _CVX, "colvars x\nlowerWalls 0.5\nupperWalls 1.5\nforceConstant 2.0\n"),
+    ("bias:linear", _CVX, "colvars x\ncenters 0.5\nforceConstant 2.0\n"),
+    ("bias:histogram", _CVX.replace("  distanceZ", "  lowerBoundary 0.0\n  upperBoundary 4.0\n  width 0.5\n  distanceZ"), "colvars x\n"),
+    ("bias:metadynamics", _CVX.replace("  distanceZ", "  lowerBoundary 0.0\n  upperBoundary 4.0\n  width 0.5\n  distanceZ"), "colvars x\nhillWeight 0.01\nhillWidth 1.0\n"),
+    ("bias:abf", _CVX.replace("  distanceZ", "  lowerBoundary 0.0\n  upperBoundary 4.0\n  width 0.5\n  distanceZ"), "colvars x\nfullSamples 10\n"),
+]
+
+
+def record_keywords(unit):
+    """{kind: sorted list of keywords (bytes)} looked up by init() of the real objects"""
+    lines = ["HK %s %s %s" % (k, G.hx(pre), G.hx(conf)) for k, pre, conf in RECORD]
+    rc, o, e = V.run_lines(unit, lines, cwd=V.scratch("C09rec"), timeout=300)
+    tbl = {}
+    for (k, _, _), l in zip(RECORD, o):
+        w = l.split("|")[0].split()
+        if w and w[0] in ("init-ok", "init-error"):
+            tbl[k] = sorted(set(G.unhx(x) for x in w[1:]))
+            ECHOED[k] = sorted(set(G.unhx(x) for x in l.split("|")[1].split())) if "|" in l else []
+    return tbl
+
+
+ECHOED = {}
+
+
+def write_gen(tbl):
+    os.makedirs(os.path.join(V.COQ, "Gen"), exist_ok=True)
+    def lst(b):
+        return "[" + "; ".join(str(c) for c in b) + "]"
+    body = ("(* GENERATED by props/C09/check.py: for every kind of real object, the keywords its init() looks up, recorded from the\n"
+            "   freshly built binary (allowed_keywords after init(), before check_keywords); do not edit *)\n"
+            "From Coq Require Import ZArith List. Import ListNotations. Local Open Scope Z_scope.\n"
+            "Definition real_keywords : list (list Z * list (list Z)) := [\n  "
+            + ";\n  ".join("(%s (* %s *),\n   [%s])" % (lst(k.encode()), k, ";\n    ".join(lst(kw) for kw in kws)) for k, kws in sorted(tbl.items()))
+            + "].\n")
+    p = os.path.join(V.COQ, "Gen", "GenC09Keywords.v")
+    if not os.path.exists(p) or open(p).read() != body:
+        open(p, "w").write(body)
+
+
+def presetup():
+    unit = V.build_prog("c09unit", UNIT["c09unit"])
+    write_gen(record_keywords(unit))
+
+
 def setup():
     V.extract_model("C09", EXTRACT, DRIVER, [])
     V.build_prog("c09unit", UNIT["c09unit"])
@@ -993,6 +1060,14 @@ def check(run):
         "keywords are program constants: theorems about key_lookup assume a non-empty keyword without LF, blank, tab or '}' (good_key); the tie uses such keywords only",
         "crash- and hang-freedom of the C++ parser is explored (timeouts, ASan/UBSan build in the thorough tier), not proved",
     ]
+    # the keyword table of the real blocks is regenerated from the binary before the theorems about it are checked
+    try:
+        presetup()
+    except V.InfraError as ex:
+        if "compilation of /repo failed" in str(ex):
+            raise
+        run.violation("tie:harness-build", "the harness no longer builds against the tree: %s" % str(ex)[-800:], {"kind": "harness-build"}, found_input=False)
+        return
     st = V.standard_start(run, PROP, EXTRACT, DRIVER, UNIT, extra_ml=())
     if st is None:
         return
@@ -1113,7 +1188,7 @@ def check(run):
             elif not io.endswith(" empty"):
                 bad = ("sequence:registry-not-empty", "the parser object's registry is not empty after a sequence of read_config_string calls (%s)" % meta["tags"])
         elif kind == "NP":
-            if meta["tag"] in ("misspelt", "wrong-level", "unknown-keyword", "brace") and io == "accept":
+            if meta["tag"] in ("misspelt", "wrong-level", "unknown-keyword", "brace", "junk-after-brace", "junk-before-brace") and io == "accept":
                 bad = ("strict:nested:%s-accepted" % meta["tag"], "a nested configuration with a %s mutation is accepted: %r" % (meta["tag"], meta["conf"]))
             elif meta["tag"] == "valid" and io != "accept":
                 bad = ("layout:nested:valid-refused", "a valid nested configuration (random layout) is refused: %r" % meta["conf"])
@@ -1153,6 +1228,47 @@ def check(run):
             run.mismatch("unit:key_lookup", c, io, mo)
     run.cov["correspondence"]["unit_cases"] = len(lines)
     run.cov["correspondence"]["corpus_cases"] = ncorpus
+
+    # ------------------------------------------------------------ 1b. every real block: check_keywords accepts exactly
+    # the keywords its init() looked up (table recorded from the binary, also the subject of GenC09_real_blocks_keywords)
+    tbl = record_keywords(unit)
+    allk = set(k for ks in tbl.values() for k in ks)
+    hc, hmeta = [], []
+    for kind, pre, conf in RECORD:
+        ks = tbl.get(kind, [])
+        if not ks:
+            run.mismatch("module:recorded-keywords", {"kind": kind}, "none", "some")
+            continue
+        acc = ks if not quick else r.sample(ks, min(8, len(ks)))
+        rej = []
+        for _ in range(len(ks) * 2 if not quick else 12):
+            src = r.choice(ks)
+            ms = G.misspell(r, src, set(ks)) if r.random() < 0.7 else None
+            wd = ms[1] if ms else r.choice(sorted(allk - set(ks)) or [b"foobar"])
+            if wd.lower() not in ks:
+                rej.append((wd, ms[0] if ms else "other-block"))
+        for wd in acc:
+            hc.append("HC %s %s %s %s" % (kind, G.hx(pre), G.hx(conf), G.hx(G.rcase(r, wd))))
+            hmeta.append((kind, wd, True, "recorded"))
+        for wd, fam in rej:
+            hc.append("HC %s %s %s %s" % (kind, G.hx(pre), G.hx(conf), G.hx(wd)))
+            hmeta.append((kind, wd, False, fam))
+    rch, hio, _ = V.run_lines(unit, hc, cwd=V.scratch("C09hc"), timeout=600)
+    _, hmo, _ = V.run_lines(model, ["CW %s %s" % (",".join(G.hx(k) for k in tbl[kd]), c.split()[4]) for (kd, _, _, _), c in zip(hmeta, hc)])
+    if len(hio) != len(hc):
+        run.violation("crash:unit", "the unit driver died while running check_keywords of a real %s block" % (hmeta[len(hio)][0] if len(hio) < len(hmeta) else "?"),
+                      {"kind": "unit", "case": hc[len(hio)] if len(hio) < len(hc) else None})
+    for (kd, wd, want, fam), c, io_, mo_ in zip(hmeta, hc, hio, hmo):
+        run.count(c, True)
+        run.dist("block:%s:%s" % (kd, "recorded" if want else fam))
+        if (io_ == "accept") != want:
+            run.violation("strict:block:%s" % ("looked-up-keyword-refused" if want else "keyword-%s-accepted" % fam),
+                          "check_keywords of a real %s block %s the word %r (%s); its init() looks up %d keywords" % (
+                              kd, "refuses" if want else "accepts", wd, "one of them" if want else fam + ", not one of them", len(tbl[kd])),
+                          {"kind": "unit", "case": c, "impl": io_, "model": mo_})
+        if io_ != mo_:
+            run.mismatch("strict:block", c, io_, mo_)
+    run.cov["correspondence"]["recorded_keywords"] = {k: len(v) for k, v in sorted(tbl.items())}
 
     # ------------------------------------------------------------ 2. whole module: mutants and layout rewrites
     d = V.scratch("C09")
@@ -1234,6 +1350,16 @@ def check(run):
                     ", ".join(what), name, b[first] if first < len(b) else "<end>", a[first] if first < len(a) else "<end>"), rp)
         if usable == 1:
             run.sample({"module_base": name, "config": conf.decode("latin1").split("\n")[:12], "observables": base_obs.split("\n")[:6]})
+    # two independent records of what a block looks up must agree: every keyword the parser ECHOES while the real init()
+    # of a block reads its text ("# keyword = value") must be among the keywords that init() REGISTERS for check_keywords
+    for lab in sorted(tbl):
+        reg = set(tbl[lab])
+        for k in ECHOED.get(lab, []):
+            run.count("echo:%s:%s" % (lab, k.decode("latin1")), True)
+            if k.lower() not in reg:
+                run.violation("strict:block:looked-up-keyword-not-registered",
+                              "the keyword %s is read (echoed) by the init() of a real %s block but is not among the keywords it registers for check_keywords: a configuration that uses it is refused" % (k.decode("latin1"), lab),
+                              {"kind": "unit", "case": "HK %s" % lab, "impl": k.decode("latin1"), "model": sorted(x.decode() for x in reg)})
     run.cov["correspondence"]["module_bases_usable"] = usable
     run.cov["correspondence"]["harvested_keywords"] = {k: len(v) for k, v in sorted(HARVEST.items())}
     # sequences of configurations sent to ONE module instance: the verdict on the last one and the objects it creates
@@ -1305,6 +1431,11 @@ def check(run):
         rc1_, o1_, _ = run_scn(unit, d, "cfs", scenario(natoms, pos, conf.encode()))
         rc2_, o2_, _ = run_scn(unit, d, "cff", scenario(natoms, pos, conf.encode()).replace("confighex %s" % G.hx(conf.encode()), "configfile c09_conf.in"))
         run.count("configfile:" + name, True)
+        rc3_, o3_, _ = run_scn(unit, d, "cfc", scenario(natoms, pos, conf.encode()).replace("confighex %s" % G.hx(conf.encode()), "script cv configfile c09_conf.in"))
+        steps = lambda o: [l for l in o.split("\n") if l.split()[:1] and l.split()[0] in ("STEP", "ENERGY", "CV", "BIAS", "ATOMF")]
+        if rc3_ != 0 or steps(o3_) != steps(o1_):
+            run.violation("layout:module:script-configfile-differs", "the configuration %s read through the script command `cv configfile` gives another result than the same text as a string" % name,
+                          {"kind": "module", "natoms": natoms, "positions": pos, "config": conf})
         if observables(o1_) != observables(o2_) or rc2_ != 0:
             run.violation("layout:module:configfile-differs", "the configuration %s read from a file (configfile) gives another result than the same text as a string" % name,
                           {"kind": "module", "natoms": natoms, "positions": pos, "config": conf})
